@@ -276,6 +276,26 @@ def bounded(b):
             M, N, cells, _ = raster([(60, 0.0, 1.0, 80), (67, 2.0, 1.0, 50)], 4, False, False, -1, 0, False, False, None, False, True)
             got = {(int(r), int(c)): int(r2[r, c]) for r, c in zip(*np.nonzero(r2))}
             b.case("roll/object_inputs_show_every_part", r2.shape == (M, N) and got == cells, case, "after the threshold was raised to 127 the note of pitch 60 still fills columns %r (it sounds for one second)" % sorted(c for (r, c) in got if r == 60))
+    # a pedalled part whose pedal events are taken away and whose threshold is then set again: the notes sound until their release
+    pp3 = pf.PerformedPart([dict(id="n0", midi_pitch=60, note_on=0.0, note_off=1.0, velocity=80, track=0, channel=0), dict(id="n1", midi_pitch=67, note_on=2.0, note_off=3.0, velocity=50, track=0, channel=0)],
+                           controls=[dict(number=64, time=0.5, value=100, track=0, channel=0), dict(number=64, time=2.0, value=0, track=0, channel=0)], id="P0")
+    pp3.controls = []
+    pp3.sustain_pedal_threshold = 64
+    case = {"input": "PerformedPart", "sequence": "pedal events removed, threshold set again, roll"}
+    ok, res = b.guard("roll/no_exception", case, lambda: compute_pianoroll(pp3, time_unit="sec", time_div=4, remove_silence=False).toarray())
+    if ok:
+        M, N, cells, _ = raster([(60, 0.0, 1.0, 80), (67, 2.0, 1.0, 50)], 4, False, False, -1, 0, False, False, None, False, True)
+        got = {(int(r), int(c)): int(res[r, c]) for r, c in zip(*np.nonzero(res))}
+        b.case("roll/object_inputs_show_every_part", res.shape == (M, N) and got == cells, case, "the note of pitch 60 fills columns %r (it sounds for one second, no pedal event is left)" % sorted(c for (r, c) in got if r == 60))
+    # a Part with a tie over the barline in the `quarter` unit (a tie chain fills the frames of all its notes)
+    tied = G.build_part("P0", 4, notes=[("t0", 0, 12, "C", None, 4, 1, 1), ("t1", 12, 8, "C", None, 4, 1, 1), ("u", 0, 20, "G", None, 3, 2, 1)], ties=[("t0", "t1")], measures=[(0, 16), (16, 32)])
+    for unit, div_ in (("quarter", 4), ("beat", 4), ("div", 1)):
+        case = {"input": "Part with a tie chain", "time_unit": unit}
+        ok, res = b.guard("roll/no_exception", case, lambda: compute_pianoroll(tied, time_unit=unit, time_div=div_, remove_silence=False).toarray())
+        if ok:
+            M, N, cells, _ = raster([(60, 0, 20, 1), (55, 0, 20, 1)], 1, False, False, -1, 0, False, False, None, False, False)
+            got = {(int(r), int(c)): int(res[r, c]) for r, c in zip(*np.nonzero(res))}
+            b.case("roll/object_inputs_show_every_part", res.shape == (M, N) and got == cells, case, "shape %r (expected %r); the tied C4 fills columns %r, it sounds for 20 sixteenths" % (res.shape, (M, N), sorted(c for (r, c) in got if r == 60)))
     # drum channel filtering
     for ch in ([0, 9, 1], [9, 9, 0], [10, 9, 15], [8, 11, 9]):
         notes = [(60, 0.0, 1.0, 64), (36, 0.0, 1.0, 100), (62, 1.0, 1.0, 70)]
